@@ -17,7 +17,7 @@ def hx(b):
 class C13(Prop):
     id = "C13"
     title = "Input framing ignores packet boundaries and survives any byte stream"
-    lean_modules = ["NV.C13.Props", "NV.C13.Witness", "NV.C13.Negative", "NV.C13.TableTie", "NV.C13.XTable", "NV.C13.Lemmas18", "NV.C13.Lemmas19", "NV.C13.Lemmas20"]
+    lean_modules = ["NV.C13.Props", "NV.C13.Witness", "NV.C13.Negative", "NV.C13.TableTie", "NV.C13.XTable", "NV.C13.Lemmas18", "NV.C13.Lemmas19", "NV.C13.Lemmas20", "NV.C13.Lemmas21", "NV.C13.Lemmas22"]
     theorems = ["NV.C13.ts_layout", "NV.C13.sb_array_has_room", "NV.C13.sb_in_bounds", "NV.C13.copy_chars_expansion",
                 "NV.C13.buffer_writes_in_bounds", "NV.C13.space_rule_sufficient", "NV.C13.space_rule_numbers",
                 "NV.C13.input_never_overflows", "NV.C13.segmentation_independent",
@@ -33,10 +33,13 @@ class C13(Prop):
                 "NV.C13.cc_table_tie", "NV.C13.cc_table_states", "NV.C13.cc_table_total", "NV.C13.cc_table_no_crash", "NV.C13.edit_bytes_tie", "NV.C13.x_table_tie", "NV.C13.x_table_complete",
                 "NV.C13.reframeLoop_len", "NV.C13.reframe_N", "NV.C13.setCall_N", "NV.C13.endInput_N",
                 "NV.C13.reframe_is_line_framing", "NV.C13.getUserData_evok", "NV.C13.run_events_safe",
-                "NV.C13.reframe_exact", "NV.C13.typeahead_lines_after_mode_end", "NV.C13.workerChunks_len", "NV.C13.doWpipe_rinv"]
+                "NV.C13.reframe_exact", "NV.C13.typeahead_lines_after_mode_end", "NV.C13.workerChunks_len", "NV.C13.doWpipe_rinv",
+                "NV.C13.getUserDataH_cases", "NV.C13.getUserDataH_keeps", "NV.C13.holdRead_true", "NV.C13.discard_only_unfinished",
+                "NV.C13.typeahead_never_discarded", "NV.C13.readTail_rinv",
+                "NV.C13.binary_read_exact", "NV.C13.binary_bytes_delivered"]
     witness_theorems = ["NV.C13.sb_terminator_overflows_exact_array", "NV.C13.ayt_returns_to_data",
                         "NV.C13.full_sb_payload_is_not_text", "NV.C13.ascii_spec_example",
-                        "NV.C13.burst_check", "NV.C13.telnet_lines_delivered_Full_false"]
+                        "NV.C13.burst_check"]
     consts = [
         ("maxText", "MAX_TEXT"), ("sbSize", "SB_SIZE"),
         ("sbBufSize", "sizeof(((interactive_t*)0)->sb_buf)"),
@@ -73,13 +76,16 @@ class C13(Prop):
     level_text = ("Lean 4 theorems about an executable model of src/comm.c input framing (copy_chars telnet decoder, "
                   "get_user_data space rule/compaction/discard, PORT_ASCII and PORT_BINARY paths, first/next_cmd_in_buf, "
                   "telnet_neg editing, add_console_line, the console worker's read/terminate/enqueue step, get_char()/input_to() mode switches with set_telnet_single_char, "
-                  "reframe_single_char_input and NOECHO) for all byte streams and all read/extract/mode-switch schedules; "
+                  "reframe_single_char_input and NOECHO, the hold test that replaces the discard of typed-ahead commands, the "
+                  "input-side snoop callback) for all byte streams and all read/extract/mode-switch schedules; "
                   "tied to the source by regenerated constants, guard numbers, statement orders, the exhaustive copy_chars "
                   "transition table (29 184 transitions compared in Lean), the small-scope exhaustive table of cmd_in_buf/"
                   "first_cmd_in_buf/next_cmd_in_buf (2046 configurations) and the editing/terminator byte sets, and by "
                   "running the real functions and the model on the same streams under exhaustive 2-splits and random "
-                  "k-splits; the Lean oracle judges every real trace; its crash/index/ask/line-length clauses are a theorem "
-                  "on model traces (run_events_safe)")
+                  "k-splits; the Lean oracle judges every real trace (incl. a stall clause for held reads); its "
+                  "crash/index/ask/line-length clauses are a theorem on model traces (run_events_safe); telnet framing "
+                  "(telnet_lines_delivered) needs only the side condition `no unfinished line longer than the discard "
+                  "threshold`; PORT_BINARY framing (binary_bytes_delivered) is unconditional")
     level_note = ("trusted: Lean kernel; extract.py + the regexes in props/c13.py that read TS_* and the guards from "
                   "comm.c; the correspondence harness (recv/send interposed, apply renamed inside the included comm.c) and "
                   "its ccprobe/edprobe commands that produce the transition table; the table covers single steps from "
@@ -101,7 +107,9 @@ class C13(Prop):
             "binary ports and the console; non-trivial = trace has >= 2 lines; distinct = distinct canonical trace")
     not_covered = ["single-character mode: delivery granularity is outside the statement (memory safety, mode switches and "
                    "reframing are covered)",
-                   "the `!` shell escape of process_user_command (WAS_SINGLE_CHAR), snooping, ed, termios / console get_char",
+                   "the `!` shell escape of process_user_command (WAS_SINGLE_CHAR), ed, termios / console get_char",
+                   "snooper callbacks made from INSIDE copy_chars through add_message() (echo, telnet replies): they always "
+                   "succeed in the harness; a snooper error / destruct there is an unrepaired defect recorded in notes/C13.md",
                    "what the LPC user object does with the line after process_input",
                    "Windows IOCP completion path of get_user_data (evt != NULL); recv() errno paths other than EWOULDBLOCK",
                    "console worker: thread scheduling, select() timeouts, queue overflow policy (the worker procedure, the line "
@@ -134,6 +142,10 @@ class C13(Prop):
         out.append("/-- C: get_user_data `if (text_space < MAX_TEXT / N)` (both tests) -/\ndef compactDiv : Nat := %d" % v)
         v = need("space after discard", r"text_space = MAX_TEXT / (\d+);", count=1)
         out.append("/-- C: get_user_data, after discard `text_space = MAX_TEXT / N` -/\ndef discardSpaceDiv : Nat := %d" % v)
+        ms = re.findall(r"if \(\(MAX_TEXT - len - 1\) / (\d+) < MAX_TEXT / (\d+) && !\(evt && evt->buffer\) && cmd_in_buf \(ip\)\)", src)
+        if len(ms) != 1:
+            raise X.TieBroken("guard:hold test", "cannot locate the hold test of get_user_data `if ((MAX_TEXT - len - 1) / N < MAX_TEXT / M && !(evt && evt->buffer) && cmd_in_buf (ip))` (matched %r)" % (ms,))
+        out.append("/-- C: get_user_data hold test `(MAX_TEXT - len - 1) / N < MAX_TEXT / M && .. && cmd_in_buf (ip)` -/\ndef holdDiv : Nat := %s\ndef holdCmpDiv : Nat := %s" % ms[0])
         v = need("cut threshold", r"if \(ip->text_end > MAX_TEXT - (\d+)\)", count=1)
         out.append("/-- C: first_cmd_in_buf `if (ip->text_end > MAX_TEXT - N)` -/\ndef cutMargin : Nat := %d" % v)
         v = need("ascii space", r"text_space = MAX_TEXT - ip->text_end - (\d+);", count=1)
@@ -142,6 +154,28 @@ class C13(Prop):
         if len(ms) != 1:
             raise X.TieBroken("guard:reframe room test", "cannot locate `if (to + N >= MAX_TEXT - M) return;` of reframe_single_char_input (matched %r)" % (ms,))
         out.append("/-- C: reframe_single_char_input `if (to + N >= MAX_TEXT - M) return;` -/\ndef reframeNeed : Nat := %s\ndef reframeReserve : Nat := %s" % ms[0])
+        # the harness builds its interactive_t by hand, field by field like new_interactive(): a field that
+        # new_interactive() starts to initialise (somebody else's fix) must be added to harness/c13/c13.c: make_user
+        a = src.find('DXALLOC (sizeof (interactive_t), TAG_INTERACTIVE, "new_user_handler")')
+        b = src.find("num_user++;", a)
+        if a < 0 or b < 0:
+            raise X.TieBroken("harness:new_interactive", "cannot locate new_interactive() in src/comm.c")
+        fields = set(re.findall(r"master_ob->interactive->(\w+)", src[a:b])) | set(re.findall(r"all_users\[i\]->(\w+)", src[a:b]))
+        known_fields = {"default_err_message", "ob", "input_to", "iflags", "text", "text_end", "text_start", "snoop_on", "snoop_by",
+                        "last_time", "trace_level", "trace_prefix", "ed_buffer", "message_producer", "message_consumer",
+                        "message_length", "state", "out_of_band", "fd"}
+        if fields - known_fields:
+            raise X.TieBroken("harness:new_interactive", "new_interactive() initialises field(s) %s that harness/c13/c13.c make_user() "
+                              "does not know (0xA5-filled there): add them to make_user()" % sorted(fields - known_fields))
+        # the harness tells add_message()'s own snoop forwarding (output side) from get_user_data()'s by the NEOLITH_VERIF
+        # hook call (phase 1) in front of it: every receive_snoop() call site but the input-side one must have it
+        sites = [(m.start(), m.group(1)) for m in re.finditer(r"receive_snoop \((\w+), ip->snoop_by->ob\);", src)]
+        if [a for _, a in sites].count("buf") != 1:
+            raise X.TieBroken("hook:output snoop", "expected exactly one input-side `receive_snoop (buf, ip->snoop_by->ob)` in src/comm.c, found call sites %r" % ([a for _, a in sites],))
+        for pos, arg in sites:
+            if arg != "buf" and not re.search(r"verif_add_message_hook \(who, %s, [01], 1\);" % re.escape(arg), src[max(0, pos - 500):pos]):
+                raise X.TieBroken("hook:output snoop", "the receive_snoop (%s, ..) call of src/comm.c is not announced by verif_add_message_hook (.., 1): "
+                                  "harness/c13/c13.c would take it for the input-side snoop callback" % arg)
         wsrc = open(os.path.join(E.REPO, "lib/async/console_worker.c"), errors="replace").read()
         ms = re.findall(r"read\(STDIN_FILENO, line_buffer, CONSOLE_MAX_LINE - (\d+)\)", wsrc)
         if len(ms) != 1 or wsrc.count("char line_buffer[CONSOLE_MAX_LINE];") < 1 or wsrc.count("line_buffer[bytes_read] = '\\0';") != 1 \
@@ -181,7 +215,7 @@ class C13(Prop):
         o3 = order("get_user_data telnet store", "case PORT_TELNET:\n          /*\n           * Process TELNET protocol", "case PORT_ASCII:\n          {",
                    [("copyChars", "size_t copied = copy_chars ("), ("deadTest", "if (copied == (size_t) -1)"),
                     ("advanceEnd", "ip->text_end += copied;"), ("terminator", "ip->text[ip->text_end] = '\\0';"),
-                    ("cmdFlag", "if (cmd_in_buf (ip))")])
+                    ("cmdFlag", "if (cmd_in_buf (ip))"), ("snoop", "receive_snoop (buf, ip->snoop_by->ob);")])
         out.append("/-- C: order of the statements of get_user_data's PORT_TELNET branch -/\ndef telnetStoreOrder : List String := [%s]"
                    % ", ".join('"%s"' % x for x in o3))
         cfg = open(os.path.join(bdir, "config.h"), errors="replace").read()
@@ -575,6 +609,15 @@ def ccTable : List CcCfg := [
         B.append(E.Case("b-single-then-line-partial-move", ["port telnet", "iflag single", "chunk " + hx(b"ab"), "iflag line", "extract",
                         "chunk " + hx(b"c\r\n"), "drain", "iflag single", "chunk " + hx(b"\0\0xy"), "iflag line", "extract", "extract",
                         "chunk " + hx(b"z\r\n"), "drain"], {"origin": "boundary"}))
+        # a snooper on the input path: receive_snoop() is one more callback of a telnet read (fix eca4aec)
+        B.append(E.Case("b-snoop-ok", ["port telnet", "snoop on", "chunk " + hx(b"look\r\nno"), "drain", "chunk " + hx(b"rth\r\n"), "drain"], {"origin": "boundary", "port": "telnet"}))
+        B.append(E.Case("b-snoop-err", ["cb 0 err", "port telnet", "snoop on", "chunk " + hx(b"look\r\n"), "extract", "chunk " + hx(b"n\r\n"), "drain"], {"origin": "boundary", "port": "telnet"}))
+        B.append(E.Case("b-snoop-dest", ["cb 0 dest", "port telnet", "snoop on", "chunk " + hx(b"look\r\n"), "drain"], {"origin": "boundary", "port": "telnet"}))
+        B.append(E.Case("b-snoop-noecho-ttype", ["cb 1 err", "port telnet", "snoop on", "chunk " + hx(tt + b"a\r\n"), "inputto noecho", "chunk " + hx(b"pw\r\n"), "serve", "chunk " + hx(b"x\0y\r\n"), "drain"], {"origin": "boundary", "port": "telnet"}))
+        # the hold test (fix 57d7cb1): reads are held back while the buffer is full of commands typed ahead
+        B.append(E.Case("b-hold-reads", ["port telnet", "send " + hx(b"n\r\n" * 700), "read", "read", "read", "read", "read", "extract", "read", "drain", "read", "finish", "drain"], {"origin": "boundary", "port": "telnet"}))
+        B.append(E.Case("b-hold-single-char", ["port telnet", "getchar", "send " + hx(b"k" * 2500), "read", "read", "read", "read", "read", "serve", "read", "finish", "drain"], {"origin": "boundary", "port": "telnet"}))
+        B.append(E.Case("b-no-hold-overlong-line", ["port telnet", "send " + hx(b"L" * 2500 + b"\r\nok\r\n"), "read", "read", "read", "read", "read", "finish", "drain"], {"origin": "boundary", "port": "telnet"}))
         # get_char() / input_to() / serve: real set_call, call_function_interactive, reframe_single_char_input
         def raw(name, lines):
             B.append(E.Case("b-" + name, ["port telnet"] + lines, {"origin": "boundary", "port": "telnet"}))
@@ -628,9 +671,14 @@ def ccTable : List CcCfg := [
                 if rng.chance(2, 3):
                     s += b"\r\n"
                 cbs = self.g_cbs(rng, 1, 4)
+                snoop = rng.chance(1, 4)
                 for how in ("one", "few", "many", "bytes"):
-                    C.append(self.mk_case("%s-%s" % (cid, how), "telnet", self.segment(rng, s, how), rng,
-                                          rng.choice(["end", "each", "rand"]), cbs=cbs))
+                    c = self.mk_case("%s-%s" % (cid, how), "telnet", self.segment(rng, s, how), rng,
+                                     rng.choice(["end", "each", "rand"]), cbs=cbs)
+                    if snoop:       # a snooper: receive_snoop() is one more callback of every read that got data
+                        k = c.lines.index("port telnet")
+                        c.lines.insert(k + 1, "snoop on")
+                    C.append(c)
             elif kind == "tlong":
                 body = b""
                 for _ in range(rng.range(1, 4)):
@@ -673,6 +721,8 @@ def ccTable : List CcCfg := [
                     s = b"\r\n" * rng.range(300, 700) + s
                 for how in ("few", "many"):
                     lines = ["port telnet"]
+                    if rng.chance(1, 3):
+                        lines.append("snoop on")    # NOECHO input is not forwarded to the snooper
                     if rng.chance(1, 2):
                         lines.append("chunk " + hx(bytes([IAC, rng.choice([WILL, WONT]), rng.choice([LM, TT, SGA])])))
                     for c in self.segment(rng, s, how):
@@ -722,6 +772,8 @@ def ccTable : List CcCfg := [
             for l in c.lines:
                 if l.startswith("cb "):
                     h["scripted_" + l.split()[-1]] = h.get("scripted_" + l.split()[-1], 0) + 1
+                elif l == "snoop on":
+                    h["snooped_cases"] = h.get("snooped_cases", 0) + 1
                 elif l.startswith(("getchar", "inputto", "serve")):
                     h["op_" + l.split()[0]] = h.get("op_" + l.split()[0], 0) + 1
                 elif l == "iflag single":
